@@ -5,6 +5,8 @@ import (
 	"errors"
 	"fmt"
 	"io"
+	"sync"
+	"time"
 
 	ws "github.com/gorilla/websocket"
 
@@ -19,6 +21,7 @@ func init() {
 		Level: "exploration",
 		Rule: "two families: (a) COMPLETE enumeration of the close codes that must be accepted (1000-1003, 1007-1011, 3000-4999) x reason length {none, 0, 1, 123 bytes UTF-8} x role, each after a short prefix; " +
 			"(b) seeded streams from the independent encoder with ping/pong/close at every kind of position (before, between and after fragments, back to back, in the part the application abandons) x role x compression x read program x handler mode (default handlers | custom handler failing at the k-th control frame); " +
+			"(c) every tenth case: pings arrive while other goroutines call WriteControl and write data through a dawdling transport; every pong on the wire must carry the payload of exactly one received ping; " +
 			"distinct = enumerated cell or hash(stream, execution); non-trivial = stream holds a control frame between fragments of a message, or a close",
 		Variants: core.PlainOnly,
 		Cases: func(tier, variant string) int {
@@ -28,7 +31,7 @@ func init() {
 			return c08EnumCases + 12000
 		},
 		Run:      runC08,
-		Required: []string{"handler_calls_checked", "pongs_checked", "close_echoes_checked", "control_between_fragments"},
+		Required: []string{"handler_calls_checked", "pongs_checked", "close_echoes_checked", "control_between_fragments", "concurrent_pong_runs"},
 		Assumptions: []string{
 			"pong and close echoes of the default handlers are demanded because nothing else holds the write lock in these single-goroutine executions",
 			"byte-level ordering of handler calls relative to delivered data is judged for uncompressed messages; for compressed messages at message granularity",
@@ -76,6 +79,10 @@ func runC08(ctx *core.Ctx, out *core.Out) {
 				}
 			}
 		}
+		return
+	}
+	if ctx.Idx%10 == 9 {
+		c08Concurrent(ctx, out)
 		return
 	}
 	fromClient := r.Bool()
@@ -383,4 +390,139 @@ func c08Exec(ctx *core.Ctx, out *core.Out, st *Stream, ex rdExec, failAt int) bo
 		return sticky(termErr)
 	}
 	return true
+}
+
+// c08Concurrent: the default ping handler answers while other goroutines use
+// WriteControl and a writer sends data through a transport that dawdles inside
+// Write. Every pong on the wire must carry the payload of exactly one received
+// ping; every application control frame appears exactly once.
+func c08Concurrent(ctx *core.Ctx, out *core.Out) {
+	r := ctx.R
+	cfg := genCfg(r)
+	if cfg.WB < 64 {
+		cfg.WB = 64
+	}
+	a, b := xport.NewPipe()
+	a.DawdleFn = func() { time.Sleep(time.Duration(50+r.Intn(300)) * time.Microsecond) }
+	dm := sync.Mutex{}
+	a.DawdleFn = func() {
+		dm.Lock()
+		d := time.Duration(50+r.Intn(300)) * time.Microsecond
+		dm.Unlock()
+		time.Sleep(d)
+	}
+	c := newConn(a, cfg, &TrackPool{}, 0)
+	var wg sync.WaitGroup
+	drainRaw(b, &wg)
+	nping := 4 + ctx.Idx%12
+	t0 := time.Now()
+	// the peer's pings
+	pings := map[string]bool{}
+	var stream []byte
+	for i := 0; i < nping; i++ {
+		p := fmt.Sprintf("peer-ping-%04d-%x", i, ctx.Idx)
+		pings[p] = true
+		f := wire.Frame{Fin: true, Op: 9, Masked: cfg.Server, Key: [4]byte{1, 2, 3, byte(i)}, Payload: []byte(p)}
+		stream = wire.Append(stream, f)
+	}
+	rdDone := make(chan struct{})
+	go func() {
+		defer close(rdDone)
+		for {
+			if _, _, err := c.ReadMessage(); err != nil {
+				return
+			}
+		}
+	}()
+	var wg2 sync.WaitGroup
+	appOK := map[string]bool{}
+	var amu sync.Mutex
+	for g := 0; g < 3; g++ {
+		wg2.Add(1)
+		go func(g int) {
+			defer wg2.Done()
+			for i := 0; i < 6; i++ {
+				p := fmt.Sprintf("app-%d-%d-%x", g, i, ctx.Idx)
+				if err := c.WriteControl(9+g%2, []byte(p), time.Now().Add(10*time.Second)); err == nil {
+					amu.Lock()
+					appOK[p] = true
+					amu.Unlock()
+				}
+			}
+		}(g)
+	}
+	wg2.Add(1)
+	go func() {
+		defer wg2.Done()
+		for i := 0; i < 4; i++ {
+			c.WriteMessage(2, bytes.Repeat([]byte{byte(i)}, 3*cfg.WB))
+		}
+	}()
+	// feed the pings in two bursts
+	b.Write(stream[:len(stream)/2])
+	time.Sleep(200 * time.Microsecond)
+	b.Write(stream[len(stream)/2:])
+	wg2.Wait()
+	// wait (bounded) until as many pongs as pings are on the wire
+	for i := 0; i < 400; i++ {
+		fs, _, _ := wire.Decode(a.Written())
+		n := 0
+		for _, f := range fs {
+			if f.Op == 10 && pings[string(f.Payload)] {
+				n++
+			}
+		}
+		if n >= nping {
+			break
+		}
+		time.Sleep(time.Millisecond)
+	}
+	elapsed := time.Since(t0)
+	a.Close()
+	b.Close()
+	<-rdDone
+	wg.Wait()
+	out.Count("concurrent_pong_runs", 1)
+	out.Eval(fmt.Sprintf("conc|%d|%s", nping, cfg), true)
+	desc := map[string]interface{}{"family": "concurrent", "cfg": cfg, "pings": nping}
+	frames, _, derr := wire.Decode(a.Written())
+	if derr != nil {
+		out.Violate("C08:concurrent-wire-undecodable", derr.Error(), desc)
+		return
+	}
+	seen := map[string]int{}
+	for _, f := range frames {
+		if f.Op < 9 {
+			continue
+		}
+		p := string(f.Payload)
+		seen[p]++
+		switch {
+		case f.Op == 10 && pings[p]:
+			out.Count("pongs_checked", 1)
+		case appOK[p]:
+		case bytes.HasPrefix(f.Payload, []byte("app-")):
+			// a WriteControl that returned an error but whose frame is on the wire would be C11's business
+		default:
+			out.Violate("C08:pong-payload-corrupted-under-concurrency", fmt.Sprintf("control frame op=%d with payload %q answers no received ping and was sent by no caller", f.Op, p), desc)
+			return
+		}
+		if seen[p] > 1 {
+			out.Violate("C08:control-frame-duplicated-under-concurrency", fmt.Sprintf("control frame with payload %q is on the wire %d times: another caller's frame was overwritten by it", p, seen[p]), desc)
+			return
+		}
+	}
+	missing := 0
+	for p := range pings {
+		if seen[p] == 0 {
+			missing++
+		}
+	}
+	if missing > 0 {
+		if elapsed < 700*time.Millisecond {
+			out.Violate("C08:ping-unanswered-under-concurrency", fmt.Sprintf("%d of %d pings were never answered although the whole run took %v (the handler's 1 s wait cannot have expired)", missing, nping, elapsed), desc)
+			return
+		}
+		out.Inconcl(fmt.Sprintf("%d pongs missing after a slow run (%v): best-effort echo may have timed out", missing, elapsed))
+	}
 }
